@@ -17,5 +17,5 @@ git -C "$WT" diff --stat | tail -1
 TIER=${TIER:-quick}
 rc=0
 for c in "$@"; do
-  VERIF_REPO="$WT" PYTHONPATH="$WT:/verif" /venv/bin/python -m vf.check "$c" --tier "$TIER" 2>&1 | grep -E "^(VIOLATION|RESULT|INCONCLUSIVE|KNOWN)|mech=" | head -${LINES_MAX:-8}
+  VERIF_REPO="$WT" PYTHONPATH="$WT:/verif" /venv/bin/python -m vf.check "$c" --tier "$TIER" 2>&1 | grep -E "^(VIOLATION|RESULT|INCONCLUSIVE)|mech=" | head -${LINES_MAX:-8}
 done
